@@ -162,23 +162,7 @@ func runC10(c *Ctx) {
 		checkScanTable(c, p, d, "R10.4c")
 	}
 	checkLRDriver(c, p, "R10.4d", gmRoot+"/parser_plain", "*Parser.Parse", false)
-	// ---- R10.5 the two generated lookups are rendered from the same string the same way ----
-	if tm := p.Func("internal/token/gen/golang", "typeMap"); tm != nil {
-		hs := loopHeaders(tm)
-		if len(hs) == 1 {
-			reg := &Region{Fn: tm, Start: hs[0], Cuts: cutSet(hs[0]), PhiInputs: map[string]Val{"rangeindex": VSym{Name: "i"}},
-				Summaries: map[string]Summary{"fmt.Sprintf": SprintfSummary}}
-			out := InterpretSafe(reg, &MapWorld{Ints: map[string]int64{"i": 0, "len(tokMap.TypeMap)": 3}})
-			got := ""
-			for k, v := range out.Stores {
-				if strings.HasSuffix(k, "[i+1]") {
-					got = v
-				}
-			}
-			ok := got == `Sprintf("%q: %d"|string(tokMap.TypeMap[i+1])|int(i+1))` || got == `Sprintf("%q: %d"|tokMap.TypeMap[i+1]|i+1)`
-			c.Ob("R10.5", "idMap entry i is the %q of typeMap entry i with number i", ok, fmt.Sprintf("entry = %s %s; the typeMap list prints each name with %%q, so the key must be %%q of the same name and the value its index — then Id and Type are mutually inverse (witness for the old \"%%s\": terminal \"\\\"\" gave Type(Id(t)) = INVALID)", got, out.Undecided), p.FnPos(tm))
-		}
-	}
+	var idMapBuilder *ssa.Function
 	// the list behind Id() is the very list the lexer and parser columns were numbered by: the data handed to the
 	// template has TypMap = tokMap.TypeMap itself (not a re-spelled copy) and IdMap = typeMap(tokMap)
 	if gt := p.Func("internal/token/gen/golang", "GenToken"); gt != nil {
@@ -264,12 +248,40 @@ func runC10(c *Ctx) {
 				ti = i
 			}
 		}
+		// the function that builds the idMap entries, whatever it is called
+		builder := "typeMap"
+		if call, ok := fields["IdMap"].(*ssa.Call); ok {
+			if f := call.Call.StaticCallee(); f != nil && f.Pkg == gt.Pkg {
+				idMapBuilder = f
+				builder = f.Name()
+			}
+		}
 		gotT, gotI := describe(fields["TypMap"]), describe(fields["IdMap"])
-		wantT, wantI := fmt.Sprintf("param#%d.TypeMap", ti), fmt.Sprintf("typeMap(param#%d)", ti)
+		wantT, wantI := fmt.Sprintf("param#%d.TypeMap", ti), fmt.Sprintf("%s(param#%d)", builder, ti)
 		c.Ob("R10.5", "GenToken: the template is given the token map's own lists", ti >= 0 && gotT == wantT && gotI == wantI,
-			fmt.Sprintf("TypMap = %s, IdMap = %s; required TypMap = %s (the list whose indices are the lexer's and the parser's token numbers, spelled as the symbol table spells them) and IdMap = %s", gotT, gotI, wantT, wantI), p.FnPos(gt))
+			fmt.Sprintf("TypMap = %s, IdMap = %s; required TypMap = %s (the list whose indices are the lexer's and the parser's token numbers, spelled as the symbol table spells them) and IdMap = the entries built from the same token map (%s)", gotT, gotI, wantT, wantI), p.FnPos(gt))
 	} else {
 		c.Undecided("R10.5", "GenToken", "function not found")
+	}
+	// ---- R10.5 the two generated lookups are rendered from the same string the same way ----
+	if tm := idMapBuilder; tm != nil {
+		hs := loopHeaders(tm)
+		if len(hs) == 1 {
+			reg := &Region{Fn: tm, Start: hs[0], Cuts: cutSet(hs[0]), PhiInputs: map[string]Val{"rangeindex": VSym{Name: "i"}},
+				Summaries: map[string]Summary{"fmt.Sprintf": SprintfSummary}}
+			out := InterpretSafe(reg, &MapWorld{Ints: map[string]int64{"i": 0, "len(tokMap.TypeMap)": 3}})
+			got := ""
+			for k, v := range out.Stores {
+				if strings.HasSuffix(k, "[i+1]") {
+					got = v
+				}
+			}
+			ok := got == `Sprintf("%q: %d"|string(tokMap.TypeMap[i+1])|int(i+1))` || got == `Sprintf("%q: %d"|tokMap.TypeMap[i+1]|i+1)`
+			c.Ob("R10.5", "idMap entry i is the %q of typeMap entry i with number i", ok, fmt.Sprintf("entry = %s %s; the typeMap list prints each name with %%q, so the key must be %%q of the same name and the value its index — then Id and Type are mutually inverse (witness for the old \"%%s\": terminal \"\\\"\" gave Type(Id(t)) = INVALID)", got, out.Undecided), p.FnPos(tm))
+		}
+	}
+	if idMapBuilder == nil {
+		c.Undecided("R10.5", "idMap builder", "the IdMap handed to the token template is not the result of a function of the package: the entries cannot be followed")
 	}
 	// the template prints TypMap with %q and IdMap entries verbatim: covered by the splice analysis
 	fnd := checkSpliceSafety(c, p, "R10.5s")
